@@ -97,6 +97,7 @@ def _registry():
     from bionumpy.encodings.alphabet_encoding import ACGTnEncoding
     from npstructures import RaggedArray
     from bionumpy.genomic_data import GenomicSequence
+    from bionumpy.genomic_data.global_offset import GlobalOffset
 
     def ivs(rng, n=None, disjoint=False):
         n = n if n is not None else rng.randint(1, 6)
@@ -156,6 +157,13 @@ def _registry():
         "jaccard": (ar.jaccard, lambda r: ({"chr1": 50}, ivs(r, 3, True), ivs(r, 2, True)), False),
         "extend_to_size": (extend_to_size, lambda r: (bed6(r), r.randint(1, 8), 50), False),
         "clip": (clip, lambda r: (ivs(r), 20), False),
+        # coordinates on the concatenated genome, with the rarely used clipping option and stops sticking out of the contig (size 20, starts below 20)
+        "GlobalOffset.from_local_interval[do_clip]": (lambda t: GlobalOffset({"chr1": 20, "chr2": 30}).from_local_interval(t, do_clip=True),
+                                                      lambda r: ((lambda iv: Interval(iv.chromosome, np.minimum(iv.start, 19), iv.stop + 12))(ivs(r)),), False),
+        "GlobalOffset.start_ends_from_intervals[do_clip]": (lambda t: GlobalOffset({"chr1": 20, "chr2": 30}).start_ends_from_intervals(t, do_clip=True),
+                                                            lambda r: ((lambda iv: Interval(iv.chromosome, np.minimum(iv.start, 19), iv.stop + 12))(ivs(r)),), False),
+        # several separators at once: the text that is split keeps all of them
+        "split[two separators]": (lambda t: strops.split(t, [";", "="]), lambda r: (bnp.as_encoded_array(["a=1;b=22;c", "k=v"][r.randint(0, 1)] + ";x=y").copy(),), False),
         "get_kmers": (get_kmers, lambda r: (seqs(r), r.randint(1, 3)), False),
         "get_kmers(view)": (get_kmers, lambda r: (view(r), 2), True),
         "get_minimizers": (get_minimizers, lambda r: (seqs(r), 2, 3), False),
